@@ -568,4 +568,63 @@ example :
   refine ⟨by rfl, by decide, by decide, by decide, by decide⟩
 
 
+/-! ## 10. `ignore_client_data` / `ignore_server_data`, and the follower without a new-stream callback -/
+
+section generic
+variable {κ : Type} [DecidableEq κ]
+
+/-- **ignore_data.**  A direction the application asked to ignore (in the new-stream callback: `cfg.ignC` / `cfg.ignS` set
+    `flags_.ignore_data_packets` of the flow for good) is never handed any data for as long as the connection lives, for every
+    capture; its flow still follows the flags (so `forget_iff`, `finished_iff_flags` and the limits apply unchanged: they hold
+    for every configuration). -/
+theorem ignore_data (cfg : Cfg) (keyOf : Pkt → κ) (lt : κ → κ → Bool) (h : List Pkt) (F : Follower κ) (k : κ) (s : Stream)
+    (hu : UniqueKeys F.streams) (hf : find? F.streams k = some s) (hl : LiveThrough cfg keyOf lt F h k) :
+    (s.client.ignoreData = true → handedIn k true (run cfg keyOf lt F h).2.flatten = []) ∧
+    (s.server.ignoreData = true → handedIn k false (run cfg keyOf lt F h).2.flatten = []) := by
+  obtain ⟨_, _, _, _, _, g5, g6⟩ := flow_is_fold cfg keyOf lt h F k s hu hf hl
+  exact ⟨fun hi => by rw [g5]; exact (feedHanded_ignored _ _ _ hi).1, fun hi => by rw [g6]; exact (feedHanded_ignored _ _ _ hi).1⟩
+
+/-- … and the flags are what the configuration says, from the creation of the stream on -/
+theorem ignore_flags_from_cfg (cfg : Cfg) (p : Pkt) :
+    (fresh cfg p).client.ignoreData = cfg.ignC ∧ (fresh cfg p).server.ignoreData = cfg.ignS := by
+  unfold fresh; split <;> exact ⟨rfl, rfl⟩
+
+/-- **no new-stream callback.**  `stepX` / `runX` are `StreamFollower::process_packet` with `on_new_connection_` possibly
+    empty.  `callback_not_set` leaves the call exactly when no callback is installed and the packet would create a stream
+    (its connection is not live and it is an initial SYN or, when attaching, carries data); the stream is then live, held
+    as its constructor left it, no callback has been made and nothing else changed.  With the callback installed `runX`
+    is `run`, so every theorem of this file applies to it; in both cases keys stay unique and every live stream stays
+    within the three limits. -/
+theorem callback_not_set_path (cfg : Cfg) (keyOf : Pkt → κ) (lt : κ → κ → Bool) :
+    (∀ F p, ((stepX cfg keyOf lt F p).2.2 = true ↔
+        (cfg.cbSet = false ∧ find? F.streams (keyOf p) = none ∧ startable cfg p = true)) ∧
+      ((stepX cfg keyOf lt F p).2.2 = true →
+        (stepX cfg keyOf lt F p).2.1 = [] ∧
+        find? (stepX cfg keyOf lt F p).1.streams (keyOf p) = some (Stream.ofPacket cfg.raw p) ∧
+        ∀ k, k ≠ keyOf p → find? (stepX cfg keyOf lt F p).1.streams k = find? F.streams k)) ∧
+    (cfg.cbSet = true → ∀ h F, (runX cfg keyOf lt F h).1 = (run cfg keyOf lt F h).1 ∧
+        (runX cfg keyOf lt F h).2 = (run cfg keyOf lt F h).2.map (fun evs => (evs, false))) ∧
+    (∀ h, UniqueKeys (runX cfg keyOf lt Follower.empty h).1.streams ∧
+      ∀ e ∈ (runX cfg keyOf lt Follower.empty h).1.streams,
+        e.2.chunks ≤ cfg.maxChunks ∧ e.2.bytes ≤ cfg.maxBytes ∧ e.2.sacked ≤ cfg.maxSacked) :=
+  ⟨fun F p => stepX_throws_iff cfg keyOf lt F p,
+   fun hc h F => runX_of_cbSet cfg keyOf lt h F hc,
+   fun h => ⟨runX_unique cfg keyOf lt h Follower.empty empty_unique,
+             runX_within cfg keyOf lt h Follower.empty (by intro e he; cases he)⟩⟩
+
+end generic
+
+/-- non-vacuity: without a callback the SYN throws and leaves the stream tracked; with the client direction ignored the
+    stream of section 9 hands over nothing -/
+example : (Model.stepX { cfg0 with cbSet := false } Follower.empty syn4).2.2 = true ∧
+    (Model.stepX { cfg0 with cbSet := false } Follower.empty syn4).1.streams.length = 1 := by decide
+
+example :
+    let cfgI : Cfg := { cfg0 with ignC := true }
+    let F := (Model.run cfgI Follower.empty [synX]).1
+    (F.streams.map (fun e => e.2.client.ignoreData)) = [true] ∧ LiveThrough cfgI identOf Ident.lt F histX (identOf synX) ∧
+    handedIn (identOf synX) true (Model.run cfgI F histX).2.flatten = [] := by
+  refine ⟨by decide, by decide, by decide⟩
+
+
 end Tins.Props.C07
